@@ -488,6 +488,8 @@ def order_limit(rel, q, ctx, combos):
   if q['order'] is None and q['limit'] is None:
     return rel
   if q['order'] is None:
+    if q['limit'] == 0:
+      return Rel(rel.cols, [], ordered=True, distinct=True)
     raise Unsupported('LIMIT without ORDER BY')
   # sort keys refer to output columns (Logica emits column names, possibly with desc)
   keys = []
